@@ -281,3 +281,102 @@ def chain_encode(layers, payload, variant):
             parms[k] = {"Colors": c, "Columns": col, "BitsPerComponent": bits}
         data = cd.encode_layer(f, data, variant + k)
     return data, parms
+
+
+# ------------------------------------------------------------------------------------------------ StreamDelim, extended
+X_SAFE = (b"x", b"\xff", b"q")        # (no `(` or `%`: in fallback mode the rest of a cut payload is tokenized)
+
+
+def delim_payload_safe(syms, variant):
+    return b"".join(SYM_BYTES[s] if s != "x" else X_SAFE[(variant + i) % len(X_SAFE)] for i, s in enumerate(syms))
+
+
+def first_endstream(data, start):
+    i = data.find(b"endstream", start)
+    return len(data) if i < 0 else i
+
+
+def delivered(filedata, start, length, fallback):
+    """What PDFParser hands to PDFStream and where it goes on, as StreamDelim.tla states it (Delivered / ResumeAt):
+    normal mode: exactly `length` bytes from `start`; fallback mode: everything up to the first `endstream`."""
+    if fallback:
+        end = first_endstream(filedata, start)
+        return filedata[start:end], end
+    return filedata[start:start + length], first_endstream(filedata, start + length)
+
+
+# ------------------------------------------------------------------------------------------------ Flate (stored blocks)
+def flate_stored(blocks, fault, variant):
+    """A zlib stream of stored blocks with the literal counts `blocks`, damaged as `fault` says.
+    -> (data given to the reader, the literal bytes in order as (block, index, value))"""
+    import struct
+    import zlib
+    pool = (0x00, 0x41, 0xFF, 0x0A, 0x78, 0x9C)
+    lits = [[pool[(variant + 3 * b + j) % len(pool)] for j in range(n)] for b, n in enumerate(blocks)]
+    kind, fa, fb_ = fault
+    out = bytearray(b"\x78\x01")
+    if kind == "header":
+        if variant % 2:
+            out[0] ^= 0x10          # (either byte: the check is made when both have arrived)
+        else:
+            out[1] ^= 0x03
+    produced = []
+    plain = bytearray()
+    for b, vals in enumerate(lits):
+        final = 1 if b == len(lits) - 1 else 0
+        first = final | (0b110 if (kind == "btype" and fa == b + 1) else 0)
+        ln = len(vals)
+        nl = ln ^ 0xFFFF
+        if kind == "nlen" and fa == b + 1:
+            nl ^= (0x0100, 0x0001)[variant % 2]
+        out.append(first)
+        out += struct.pack("<HH", ln, nl)
+        for j, v in enumerate(vals):
+            plain.append(v)
+            if kind == "lit" and fa == b + 1 and fb_ == j + 1:
+                v ^= 0xFF
+            out.append(v)
+            produced.append((b + 1, j + 1, v))
+    ad = bytearray(struct.pack(">I", zlib.adler32(bytes(plain))))
+    if kind == "adler":
+        ad[variant % 4] ^= 0x5A
+    out += ad
+    if kind == "trunc":
+        out = out[:fa]
+    return bytes(out), produced
+
+
+def zlib_bytewise(data):
+    """what zlib does when fed one byte at a time: ([bytes put out per input byte], index of the failing byte or -1)"""
+    import zlib
+    d = zlib.decompressobj()
+    outs = []
+    for i in range(len(data)):
+        try:
+            outs.append(d.decompress(data[i:i + 1]))
+        except zlib.error:
+            return outs, i
+    return outs, -1
+
+
+def inflate_longest_prefix(data):
+    """reference for `the bytes inflate produced before the failure`, by another route than byte-wise feeding:
+    the output of the longest prefix of data that a fresh decompressobj takes in one call without raising"""
+    import zlib
+
+    def run(p):
+        try:
+            return zlib.decompressobj().decompress(data[:p])
+        except zlib.error:
+            return None
+
+    lo, hi = 0, len(data)
+    if run(hi) is not None:
+        return run(hi), -1
+    while hi - lo > 1:           # run(lo) works, run(hi) raises; failure is monotone in the prefix length
+        mid = (lo + hi) // 2
+        if run(mid) is None:
+            hi = mid
+        else:
+            lo = mid
+    return run(lo), lo           # lo = 0-based index of the byte that makes it fail
